@@ -254,23 +254,58 @@ def run_replay(path: str, timeout=180):
 
 
 # ---------------------------------------------------------------- parallel map
+TEMP_DIRS = []      # scratch directories made by a case; removed when the case ends (pool workers never run atexit handlers)
+
+
+def reg_tmp(path):
+    TEMP_DIRS.append(path)
+    return path
+
+
 def _wrap(args):
+    import shutil
+
     fn, item = args
+    n0 = len(TEMP_DIRS)
     try:
         return fn(item)
     except Exception as e:
         return {"inconclusive": [f"worker crashed on {str(item)[:200]}: {type(e).__name__}: {e}\n"
                                  + traceback.format_exc()[-1500:]]}
+    finally:
+        for d in TEMP_DIRS[n0:]:
+            shutil.rmtree(d, ignore_errors=True)
+        del TEMP_DIRS[n0:]
 
 
 def pmap(fn, items, nproc=None, chunksize=1):
+    """Unordered parallel map over forked workers.  A worker that dies (out of memory, signal) breaks the pool: every case
+    that has no result yet is then reported as inconclusive - the run can never hang or turn green because of it."""
+    from concurrent.futures import ProcessPoolExecutor, as_completed
+
     nproc = nproc or NPROC
     items = list(items)
     if nproc <= 1 or len(items) <= 1:
         for it in items:
             yield _wrap((fn, it))
         return
-    ctx = mp.get_context("fork")
-    with ctx.Pool(min(nproc, len(items))) as pool:
-        for r in pool.imap_unordered(_wrap, [(fn, it) for it in items], chunksize=chunksize):
-            yield r
+    ex = ProcessPoolExecutor(max_workers=min(nproc, len(items)), mp_context=mp.get_context("fork"))
+    futs = {ex.submit(_wrap, (fn, it)): it for it in items}
+    try:
+        for f in as_completed(futs):
+            try:
+                yield f.result()
+            except BaseException as e:      # BrokenProcessPool and friends
+                if isinstance(e, (KeyboardInterrupt, GeneratorExit)):
+                    raise
+                yield {"inconclusive": [f"worker process lost on {str(futs[f])[:200]}: {type(e).__name__}: {e}"]}
+    finally:
+        for f in futs:
+            f.cancel()
+        procs = list(getattr(ex, "_processes", {}).values())
+        ex.shutdown(wait=False, cancel_futures=True)
+        for pr in procs:
+            try:
+                pr.terminate()
+            except Exception:
+                pass
